@@ -57,6 +57,37 @@ def check_body(case):
                         (len(out), len(data)))
 
 
+def check_reuse(case):
+    """one ContentBody / ProtocolHeader object encoded, changed and encoded again"""
+    obj = body.ContentBody(case['first'])
+    ch = case['ch']
+    call('marshal', frame.marshal, obj, ch)
+    obj.value = case['data']
+    check_encoded_body(obj, case['data'], ch)
+    ph = header.ProtocolHeader(*case['v1'])
+    ph.marshal()
+    call('marshal', frame.marshal, ph, 0)
+    ph.major_version, ph.minor_version, ph.revision = case['v2']
+    want = b'AMQP\x00' + bytes(case['v2'])
+    if ph.marshal() != want or frame.marshal(ph, 0) != want:
+        raise Violation('reuse:protocol', 'ProtocolHeader re-assigned to %r encodes as '
+                        '%r' % (tuple(case['v2']), ph.marshal()))
+    n, _, out = frame.unmarshal(want)
+    if (out.major_version, out.minor_version, out.revision) != tuple(case['v2']):
+        raise Violation('reuse:protocol', 'decoded %r' % ((out.major_version,
+                                                          out.minor_version,
+                                                          out.revision),))
+
+
+def check_encoded_body(obj, data, ch):
+    enc = call('marshal', frame.marshal, obj, ch)
+    n, rch, out = call('unmarshal', frame.unmarshal, enc)
+    if n != len(data) + 8 or rch != ch or out.value != data or len(obj) != len(data):
+        raise Violation('reuse:body', 'a re-assigned ContentBody of %d bytes decodes as '
+                        '%d bytes (consumed %r, channel %r)' %
+                        (len(data), len(out.value), n, rch))
+
+
 def body_nontrivial(case):
     d = case['data']
     return len(d) > 4096 or b'\xce' in d or b'AMQP' in d or case['ch'] >= 256 \
@@ -150,6 +181,15 @@ COMPONENTS = [
               nontrivial=body_nontrivial, classes=body_classes,
               budget={'quick': 8000, 'thorough': 160000},
               describe='content bodies 1..131072 bytes'),
+    Component('reuse', check_reuse,
+              strategy=lambda tier: st.fixed_dictionaries({
+                  'first': S.bodies(4200), 'data': S.bodies(4200), 'ch': S.CHANNELS,
+                  'v1': st.tuples(*[st.integers(0, 255)] * 3),
+                  'v2': st.tuples(*[st.integers(0, 255)] * 3)}),
+              nontrivial=lambda c: c['first'] != c['data'],
+              budget={'quick': 3200, 'thorough': 64000},
+              describe='one body / protocol-header object encoded, re-assigned, encoded '
+                       'again'),
     Component('heartbeats', check_heartbeat, cases=heartbeat_cases,
               nontrivial=lambda c: c['ch'] != 0, distinct_by_construction=True,
               exhaustive=True, describe='all 65536 channels'),
